@@ -1,0 +1,16 @@
+//go:build verif
+
+package proxy
+
+// Hooks for the verification harness (build tag `verif`); not compiled otherwise. Read-only.
+
+// VerifDump returns proxy name -> Login.Hostname of the owning session.
+func (pm *Manager) VerifDump() map[string]string {
+	pm.mu.RLock()
+	defer pm.mu.RUnlock()
+	out := map[string]string{}
+	for name, pxy := range pm.pxys {
+		out[name] = pxy.GetLoginMsg().Hostname
+	}
+	return out
+}
